@@ -61,12 +61,16 @@ def names(tier):
     return one + r.sample(two, 120) + ["A1", "A2", "A1B", "AA", "AAA", "AAB", "AB1", "Z9", "Z99", "X0"] + longer[:40] + RESERVED
 
 
+DECLARED = {}
+
+
 def impl_ident(text, rx):
     from coco.b09.compiler import convert
     try:
         out = convert(text, add_standard_prefix=False, add_suffix=False)
     except Exception as e:  # noqa: BLE001
         return "rejected " + type(e).__name__
+    DECLARED[text] = sorted(set(re.findall(r"(?m)^(?:\d+ )?DIM ([A-Za-z_][A-Za-z0-9_]*\$?)", out)))
     for line in out.split("\n"):
         m = re.search(rx, line)
         if m:
@@ -94,6 +98,8 @@ def run(tier):
     for k, i in enumerate(impl):
         if i.startswith("rejected"):
             model[k] = i
+    for c in cs:
+        c.setdefault("aux", {})["declared"] = DECLARED.get(c["text"], [])
     # a reserved word is outside the model's domain too: what matters for it is consistency (see oracle)
     groups = {}
     for k, c in enumerate(cs):
@@ -105,7 +111,7 @@ def run(tier):
         if c["name"] in RESERVED:
             g = groups[(c["name"], c["kind"])]
             # not_var: positions where the word is accepted but as something other than this variable
-            c["aux"] = {"not_var": [t for t, v in g if not v][:3]}
+            c["aux"]["not_var"] = [t for t, v in g if not v][:3]
     dis = [{"req": c["text"], "kind": c["kind"], "model": m[:80], "impl": i[:80]}
            for c, m, i in zip(cs, model, impl) if m != i]
     return {"cases": cs, "model": model, "impl": impl, "disagreements": dis}
@@ -138,6 +144,11 @@ def oracle(case, impl):
         return f"{case['text']!r}: variable {case['name']} ({case['kind']}) became {ident!r}, Color BASIC identity needs {want!r}"
     if ident in GENERATED or ident.startswith("tmp_"):
         return f"user variable {case['name']} collides with the generated identifier {ident}"
+    # the declaration the tool writes for an array must declare the identifier the statement uses
+    if case["kind"] in ("array", "strarray"):
+        decl = [d for d in case.get("aux", {}).get("declared", []) if d.startswith("arr_") and d != "arr_QQ"]
+        if decl and want not in decl:
+            return f"{case['text']!r}: the array is used as {want} but the output declares {', '.join(decl)}"
     return None
 
 
